@@ -195,6 +195,15 @@ func newBinaryExprGuard(expr *influxql.BinaryExpr) *exprGuard {
 		// incoming point. The decision here is to match any point that has a possibly
 		// expensive match if there is any overlap on the tags. In other words, expensive
 		// matches get transformed into trivially matching everything.
+		//
+		// The index evaluates the regex against the measurement name when the key is
+		// "_name", and against the empty string for a series that does not have the tag.
+		// In the first case, and whenever the empty string satisfies the condition, series
+		// without the tag are selected as well, so every point has to match.
+		if key.Val == "_name" || value.Val == nil ||
+			value.Val.MatchString("") == (expr.Op == influxql.EQREGEX) {
+			return nil
+		}
 		return &exprGuard{tagExists: map[string]struct{}{key.Val: {}}}
 
 	case *influxql.VarRef:
@@ -232,12 +241,18 @@ func (g *exprGuard) matches(pt models.Point) bool {
 		if g.tagMatches.meas {
 			return g.tagMatches.op(pt.Name())
 		}
+		found := false
 		for _, tag := range pt.Tags() {
-			if bytes.Equal(tag.Key, g.tagMatches.key) && g.tagMatches.op(tag.Value) {
-				return true
+			if bytes.Equal(tag.Key, g.tagMatches.key) {
+				if g.tagMatches.op(tag.Value) {
+					return true
+				}
+				found = true
 			}
 		}
-		return false
+		// The index treats a series without the tag as having the empty value, so
+		// tag != 'x' and tag = '' select it: ask the operator about the empty value.
+		return !found && g.tagMatches.op(nil)
 
 	case g.tagExists != nil:
 		for _, tag := range pt.Tags() {
